@@ -206,7 +206,8 @@ def expect_status(s, now, blocks=True):
     res.append(("summary", "has_rehash", str(sum(1 for e in v["info"] if e["rehash"]))))
     bad = sorted(p for p, e in info.items() if e["bad"])
     res.append(("summary", "has_bad", str(len(bad)), str(bad[0] if bad else 0), str(bad[-1] if bad else 0)))
-    res.append(("info_count", str(len(v["info"]))))
+    if v["info"]:                       # status.c:355 stops before this tag when no position has info
+        res.append(("info_count", str(len(v["info"]))))
     return sorted(res)
 
 
@@ -265,8 +266,9 @@ def report_digest(tags, drop=("content",)):
     return hashlib.sha1("\n".join(keep).encode("latin1")).hexdigest(), len(keep)
 
 
-def tree_digest(root, subdirs):
-    """digest (names, sizes, mtimes, bytes) of some subtrees of an array"""
+def tree_digest(root, subdirs, skip=(".lock",)):
+    """digest (names, sizes, mtimes, bytes) of some subtrees of an array; the lock file beside the first content
+    copy is the one file every command may create"""
     h = hashlib.sha1()
     for sub in subdirs:
         base = os.path.join(root, sub)
@@ -278,6 +280,8 @@ def tree_digest(root, subdirs):
         for dp, dn, fn in sorted(os.walk(base)):
             dn.sort()
             for n in sorted(fn):
+                if n.endswith(skip):
+                    continue
                 p = os.path.join(dp, n)
                 st = os.lstat(p)
                 h.update(repr((os.path.relpath(p, root), st.st_size, st.st_mtime_ns)).encode())
